@@ -144,7 +144,8 @@ def render_items(items):
 
 def render(scn):
     mk = MK
-    o = [PRE, "(defn run []"]
+    # an error in the scenario script itself must end the process at once (worker threads would keep the loop alive for ever)
+    o = [PRE, "(defn run-body []"]
     o.append("  (def objs [%s])" % " ".join((mk[k] if k == "probe" else "(rc/watch %s)" % mk[k]) for k in scn["kinds"]))
     o.append("  (def reqs @[]) (def backs @[]) (def done (ev/chan 8))")
     o.append("  (def loopc (ev/thread-chan 4)) (def kept @[])")
@@ -190,6 +191,7 @@ def render(scn):
     o.append("  (each x objs (touch x))")
     o.append("  (print \"RCEND \" (string/join (map |(string (rc/count $)) [;objs ;backs]) \" \"))")
     o.append("  :finished)")
+    o.append('(defn run [] (try (run-body) ([e] (print "SCRIPT-ERROR " e) (flush) (os/exit 3))))')
     o.append("(defn collect [] (gccollect) (gccollect) :collected)")
     return "\n".join(o) + "\n"
 
